@@ -41,3 +41,19 @@ def close(a, b, tol):
         return e <= tol, e
     e = maxabs(a - b)
     return e <= tol, e
+
+
+def tm_sides_differ(t, d=0.0):
+    """A published transform is ONE pose however it is read: distance between its matrix and the pose its six-vector describes,
+    as (error, tolerance) - or None if the object cannot be read.  Tolerance: the exponential's cut-off (5e-6, times the lever d)."""
+    from scipy.spatial.transform import Rotation
+    try:
+        M = np.asarray(t.gTM(), dtype=float)
+        taa = np.asarray(t.gTAA(), dtype=float).reshape(-1)
+    except Exception:
+        return None
+    if M.shape != (4, 4) or taa.shape != (6,) or not (np.all(np.isfinite(M)) and np.all(np.isfinite(taa))):
+        return None
+    R = Rotation.from_rotvec(taa[3:]).as_matrix()
+    e = max(float(np.abs(R - M[:3, :3]).max()), float(np.abs(taa[:3] - M[:3, 3]).max()))
+    return e, ABS5 * max(1.0, float(d), float(np.abs(M[:3, 3]).max()))
